@@ -453,7 +453,8 @@ func reader_scanStatement(r *Decoder, ectx evaluationContext, r0 cursorio.Decode
 		nectx.CurSubject = ectx.Global.BlankNodeStringFactory.NewBlankNode()
 		nectx.CurSubjectLocation = r.commitForTextOffsetRange(r0.AsDecodedRunes())
 
-		r.pushState(nectx, reader_scan_PredicateObjectList)
+		r.pushState(nectx, reader_scan_PredicateObjectList_Continue)
+		r.pushState(nectx, reader_scan_PredicateObjectList_Required)
 
 		fn := scanFunc(func(r *Decoder, ectx evaluationContext, r0 cursorio.DecodedRune, err error) (readerStack, error) {
 			return reader_scan_collection(r, ectx, r0, nectx.CurSubject, nectx.CurSubjectLocation)
